@@ -981,11 +981,41 @@ def make_text_models():
         return VecM(out)
 
     def m_to_lowercase(ex, st, args, callee, ty):
+        """ASCII: arithmetic.  Non-ASCII: only when the path condition leaves the char a handful of concrete values (a bounded
+        alphabet); each value is lower-cased with the Unicode mapping (Python's str.lower == Rust's char::to_lowercase for
+        single chars without context rules).  Anything else is outside the stated bound."""
         s = sstr_of(ex, st, args[0])
+        out = []
         for c in s.chars:
-            if not ex.decide(st, bv_bin("Lt", c, BV(32, False, 0x80))):
+            if ex.decide(st, bv_bin("Lt", c, BV(32, False, 0x80))):
+                out.append(ascii_lower(c))
+                continue
+            val = None
+            if c.concrete:
+                val = c.v
+            else:
+                cands, extra = [], ["(bvuge %s #x00000080)" % c.smt()]
+                while len(cands) <= 6:
+                    r, model = ex.solver.check(st.pc + extra, want_model=[c.smt()])
+                    if r != "sat":
+                        break
+                    from .smt import parse_smt_int
+                    v = parse_smt_int(model[c.smt()])
+                    cands.append(v)
+                    extra.append("(not (= %s (_ bv%d 32)))" % (c.smt(), v))
+                if len(cands) > 6:
+                    raise Unsupported("to_lowercase on a non-ASCII char with an unbounded range (outside the stated bound)")
+                for v in cands:
+                    if ex.decide(st, bv_bin("Eq", c, BV(32, False, v))):
+                        val = v
+                        break
+            if val is None:
                 raise Unsupported("to_lowercase on a non-ASCII char (outside the stated bound)")
-        return SStr([ascii_lower(c) for c in s.chars])
+            low = chr(val).lower()
+            if len(low) != 1 or chr(val) == "\u03a3":
+                raise Unsupported("to_lowercase with a multi-char or context dependent mapping (U+%04X)" % val)
+            out.append(BV(32, False, ord(low)))
+        return SStr(out)
 
     def m_string_eq(ex, st, args, callee, ty):
         s, t = sstr_of(ex, st, args[0]), sstr_of(ex, st, args[1])
